@@ -3,6 +3,7 @@
 mod codes;
 mod header;
 mod mdns;
+mod observe;
 mod meter;
 mod pkt;
 mod text;
@@ -32,6 +33,9 @@ fn run_line(line: &str) -> String {
         "RT" => pkt::run_rt(args),
         "NAMENEW" => textapi::run_namenew(args),
         "STORE" => mdns::run_store(args),
+        "OBSERVE" => observe::run_observe(args),
+        "OWN" => observe::run_own(args),
+        "HASHI" => observe::run_hashi(args),
         "DISC" => mdns::run_disc(args),
         "HISTB" => mdns::run_histb(args),
         "SUFFIX" => textapi::run_suffix(args),
